@@ -32,7 +32,7 @@ MAX_ASSIGNMENTS = 24
 class Run:
     __slots__ = ("sc", "recs", "regw", "fslog", "fired", "sched", "digest", "capped",
                  "nsteps", "nswitch", "mid_switches", "overlaps", "sites", "explicit", "pool_obs",
-                 "pool_fold", "results", "barriers")
+                 "pool_fold", "results", "barriers", "matched", "relaxed_ops")
 
     def __init__(self):
         self.recs = {}
@@ -261,6 +261,8 @@ def l1_check(run: Run, prop=None):
     sc = run.sc
     viols = []
     stats = {"l1_ops": 0, "l1_evals": 0, "l1_multi": 0, "l1_unchecked": 0, "l1_relaxed": 0}
+    run.matched = {}
+    run.relaxed_ops = set()
     for actor in sc["actors"]:
         name = actor["name"]
         if actor.get("nemesis"):
@@ -307,6 +309,9 @@ def l1_check(run: Run, prop=None):
                     # flows into the reference evaluation exactly as it did in the simulation
                     qres.append(run.results[name][i])
                     matched = True
+                    run.matched[(name, i)] = asg
+                    if relaxed:
+                        run.relaxed_ops.add((name, i))
                     break
             if matched:
                 continue
@@ -330,12 +335,18 @@ def l1_check(run: Run, prop=None):
     return viols, stats
 
 
-def decide(sc, prop=None, full_digest=True):
-    """simulate + L1 + L2 -> (run, violations, stats)"""
+def decide(sc, prop=None, full_digest=True, cold=None):
+    """simulate + L1 (+ cold-process L1 when a ColdServer is given) + L2 -> (run, violations, stats)"""
     run = simulate(sc, full_digest=full_digest)
     if run.capped:
         return run, [], {"capped": 1}
     viols, stats = l1_check(run, prop)
+    if cold is not None:
+        from .cold import cold_check
+
+        v3, s3 = cold_check(cold, run, run.matched, run.relaxed_ops)
+        viols.extend(v3)
+        stats.update(s3)
     if prop is not None and hasattr(prop, "l2_check"):
         v2, s2 = prop.l2_check(run)
         viols.extend(v2)
